@@ -70,7 +70,7 @@ func genHistory(t *rapid.T, allowEmpty bool) ListHistory {
 		return h
 	}
 	h.Init = genVals(t, 0, 5, 1)
-	nadd := []int{0, 1, 2, 3, 4, 5, 7, 8, 9, 15, 16, 17, 31, 33, 40}[drawInt(t, 0, 14, "nadd")]
+	nadd := []int{0, 1, 2, 3, 4, 5, 7, 8, 9, 15, 16, 17, 31, 33, 40, 63, 64, 65, 100, 129}[drawIdx(t, 20, "nadd")]
 	for i := 0; i < nadd; i++ {
 		h.Adds = append(h.Adds, genValSpec(t, 1))
 	}
